@@ -285,6 +285,9 @@ pub struct CandSeed {
     pub scope: u8,
     pub cond: u8,
     pub instrs: Vec<ISeed>,
+    /// boundary ports declared in the footprint: (is_input, port key from a pool of 4)
+    #[serde(default)]
+    pub ports: Vec<(bool, u8)>,
 }
 
 fn vseed() -> impl Strategy<Value = VSeed> {
@@ -314,8 +317,15 @@ pub fn iseed() -> impl Strategy<Value = ISeed> {
 }
 
 pub fn cand_seed(max_instrs: usize) -> impl Strategy<Value = CandSeed> {
-    (0..N_SLOTS, any::<u8>(), 0..N_NODES, 0u8..10, prop::collection::vec(iseed(), 0..max_instrs))
-        .prop_map(|(slot, w, scope, cond, instrs)| CandSeed { slot, w, scope, cond, instrs })
+    (
+        0..N_SLOTS,
+        any::<u8>(),
+        0..N_NODES,
+        0u8..10,
+        prop::collection::vec(iseed(), 0..max_instrs),
+        prop_oneof![4 => Just(vec![]), 1 => prop::collection::vec((any::<bool>(), 0u8..4), 1..3)],
+    )
+        .prop_map(|(slot, w, scope, cond, instrs, ports)| CandSeed { slot, w, scope, cond, instrs, ports })
 }
 
 fn pick<T: Copy>(v: &[T], i: u8) -> Option<T> {
@@ -476,7 +486,14 @@ pub fn realise_cands(pre: &AState, seeds: &[CandSeed]) -> Vec<WCand> {
             2 => MatchCond::NodeHasType(s.scope, 0),
             _ => MatchCond::Always,
         };
-        let fp = honest_footprint(w, &instrs);
+        let mut fp = honest_footprint(w, &instrs);
+        for (is_in, p) in &s.ports {
+            if *is_in {
+                fp.b_in.insert(1000 + *p as u64);
+            } else {
+                fp.b_out.insert(1000 + *p as u64);
+            }
+        }
         out.push(WCand { slot: s.slot, w, scope: s.scope as u16, prog: Prog { cond, instrs, fp } });
     }
     out
